@@ -77,6 +77,12 @@ type machine struct {
 	// tree: per peer the entities (besides [0]) it has at present, by what it announced; nil for a
 	// peer that has not announced itself
 	tree map[int]map[string]bool
+	// had: per peer the entities it has had at some time on its present connection (the application may
+	// still hold addresses of their features)
+	had map[int]map[string]bool
+	// noAddr: peers whose discovery data never carries a device address (the element is optional): the
+	// stack knows them by SKI only, their entity and feature addresses have no device part
+	noAddr map[int]bool
 	// localGone: local entities (keys) the application has removed from the device
 	localGone map[string]bool
 	// a teardown (connection or remote entity) of a peer that held registry entries on a server feature of a
@@ -112,9 +118,57 @@ func (m *machine) syncEnts(pi int) {
 	for _, e := range entDomain() {
 		if m.tree[pi][entKey(e.Addr)] {
 			ents = append(ents, e)
+			if m.had[pi] == nil {
+				m.had[pi] = map[string]bool{}
+			}
+			m.had[pi][entKey(e.Addr)] = true
 		}
 	}
 	m.w.Peers[pi].Ents = world.WithDeviceInfo(ents)
+}
+
+// everHad: the peer has this entity or had it earlier on this connection.
+func (m *machine) everHad(pi int, ent []uint) bool {
+	return m.tree[pi] != nil && (fullTree()[entKey(ent)] || m.had[pi][entKey(ent)])
+}
+
+// stripDeviceAddress takes the (optional) device address out of discovery data: out of the device
+// description and out of the entity and feature addresses.
+func stripDeviceAddress(data *model.NodeManagementDetailedDiscoveryDataType) *model.NodeManagementDetailedDiscoveryDataType {
+	if data.DeviceInformation != nil && data.DeviceInformation.Description != nil {
+		data.DeviceInformation.Description.DeviceAddress = nil
+	}
+	for i := range data.EntityInformation {
+		if d := data.EntityInformation[i].Description; d != nil && d.EntityAddress != nil {
+			d.EntityAddress.Device = nil
+		}
+	}
+	for i := range data.FeatureInformation {
+		if d := data.FeatureInformation[i].Description; d != nil && d.FeatureAddress != nil {
+			d.FeatureAddress.Device = nil
+		}
+	}
+	return data
+}
+
+// discovery: the discovery data of a message of peer pi; a peer that does not tell its device address
+// never does.
+func (m *machine) discovery(pi int, data *model.NodeManagementDetailedDiscoveryDataType) *model.NodeManagementDetailedDiscoveryDataType {
+	if m.noAddr[pi] {
+		return stripDeviceAddress(data)
+	}
+	return data
+}
+
+// announceWithoutAddress: the peer's discovery reply (as world.Peer.Announce) without device address.
+func announceWithoutAddress(p *world.Peer, ents []world.EntSpec) {
+	ents = world.WithDeviceInfo(ents)
+	p.Ents = ents
+	cmd := model.CmdType{NodeManagementDetailedDiscoveryData: stripDeviceAddress(p.DiscoveryData(ents, nil))}
+	p.Send(p.Msg(model.CmdClassifierTypeReply, p.NM(), world.LocalNM(), false, p.DiscoveryRef, cmd))
+	p.W.Sync()
+	p.Cap.Drain()
+	p.W.Events.Drain()
 }
 
 func (m *machine) live(t *rapid.T, label string) int {
@@ -148,7 +202,7 @@ func (m *machine) snapshot(pi int) snap {
 	// resolved by SKI only)
 	s.BySki = dev != nil
 	s.ByAddr = m.w.Local.RemoteDeviceForAddress(p.Addr) != nil
-	s.Resolved = s.BySki && (s.ByAddr || p.Ents == nil)
+	s.Resolved = s.BySki && (s.ByAddr || p.Ents == nil || m.noAddr[pi])
 	// registries are filtered by SKI; the Peer keeps the device object also after removal
 	for _, e := range m.w.Local.SubscriptionManager().Subscriptions(p.Dev) {
 		s.Subs = append(s.Subs, fmt.Sprintf("%s->%s", refOf(e.ClientFeature.Address()), refOf(e.ServerFeature.Address())))
@@ -218,22 +272,40 @@ func (m *machine) bind(t *rapid.T) {
 func (m *machine) localClientOp(t *rapid.T) {
 	pi := m.live(t, "peer")
 	rs := remoteServers[rapid.IntRange(0, len(remoteServers)-1).Draw(t, "remoteServer")]
+	late := ""
 	if m.tree[pi] != nil && !m.has(pi, rs.ref.Ent) {
-		t.Skip("gone / not announced yet")
+		if !m.everHad(pi, rs.ref.Ent) {
+			t.Skip("not announced yet")
+		}
+		// the application reacts late: it got the address while the peer had the entity and uses it after
+		// the peer has announced the entity as removed. Whether the call records anything is the code's
+		// choice; what it records refers to that device and goes with its connection.
+		late = " (an entity the peer has announced as removed meanwhile)"
+		world.Label("local-client/late-call-for-removed-entity")
 	}
 	if m.tree[pi] == nil && !fullTree()[entKey(rs.ref.Ent)] {
 		t.Skip("not in the tree the peer is going to announce")
 	}
 	a := m.w.Peers[pi].FA(rs.ref.Ent, rs.ref.Feat)
+	recorded := false
 	if rapid.Bool().Draw(t, "bindNotSub") {
 		_, err := rs.client(m.w).BindToRemote(a)
-		m.logf("local client binds to peer%d %s => err=%v", pi+1, rs.ref, err != nil)
+		recorded = rs.client(m.w).HasBindingToRemote(a)
+		m.logf("local client binds to peer%d %s%s => err=%v", pi+1, rs.ref, late, err != nil)
 	} else {
 		_, err := rs.client(m.w).SubscribeToRemote(a)
-		m.logf("local client subscribes to peer%d %s => err=%v", pi+1, rs.ref, err != nil)
+		recorded = rs.client(m.w).HasSubscriptionToRemote(a)
+		m.logf("local client subscribes to peer%d %s%s => err=%v", pi+1, rs.ref, late, err != nil)
+	}
+	if late != "" && recorded {
+		world.Label("local-client/late-call-for-removed-entity/recorded")
 	}
 	m.w.Peers[pi].Cap.Drain()
-	m.ops = append(m.ops, "localclient")
+	if late != "" {
+		m.ops = append(m.ops, "localclient-late")
+	} else {
+		m.ops = append(m.ops, "localclient")
+	}
 }
 
 // pendingWrite: a bound client of the LoadControl server (which has an approval callback that
@@ -574,13 +646,13 @@ func (m *machine) lateResponse(t *rapid.T) {
 	var d model.DatagramType
 	switch kind {
 	case "discovery-reply":
-		cmd := model.CmdType{NodeManagementDetailedDiscoveryData: p.DiscoveryData(world.WithDeviceInfo(regs.PeerEntities()), nil)}
+		cmd := model.CmdType{NodeManagementDetailedDiscoveryData: m.discovery(p.Idx, p.DiscoveryData(world.WithDeviceInfo(regs.PeerEntities()), nil))}
 		d = p.Msg(model.CmdClassifierTypeReply, p.NM(), world.LocalNM(), false, p.DiscoveryRef, cmd)
 	case "discovery-notify":
 		added := model.NetworkManagementStateChangeTypeAdded
 		ent := world.EntSpec{Addr: []uint{5}, Type: model.EntityTypeTypeEV, Feats: []world.FeatSpec{{ID: 1, Type: model.FeatureTypeTypeMeasurement, Role: model.RoleTypeClient}}}
 		cmd := model.CmdType{Function: ptr(model.FunctionTypeNodeManagementDetailedDiscoveryData), Filter: []model.FilterType{*model.NewFilterTypePartial()},
-			NodeManagementDetailedDiscoveryData: p.DiscoveryData([]world.EntSpec{ent}, &added)}
+			NodeManagementDetailedDiscoveryData: m.discovery(p.Idx, p.DiscoveryData([]world.EntSpec{ent}, &added))}
 		d = p.Msg(model.CmdClassifierTypeNotify, p.NM(), world.LocalNM(), false, nil, cmd)
 	case "usecase-reply":
 		cmd := model.CmdType{NodeManagementUseCaseData: &model.NodeManagementUseCaseDataType{}}
@@ -634,7 +706,14 @@ func (m *machine) announceLate(t *rapid.T) {
 		before[i] = m.snapshot(i)
 	}
 	p := m.w.Peers[pi]
-	p.Announce(regs.PeerEntities())
+	// now and then without the (optional) device address
+	if rapid.IntRange(0, 3).Draw(t, "withoutDeviceAddress") == 0 {
+		announceWithoutAddress(p, regs.PeerEntities())
+		m.noAddr[pi] = true
+		world.Label("op/announce-late/without-device-address")
+	} else {
+		p.Announce(regs.PeerEntities())
+	}
 	m.tree[pi] = fullTree()
 	if rapid.Bool().Draw(t, "answersCoreRequests") {
 		p.AnswerCoreRequests()
@@ -669,7 +748,14 @@ func (m *machine) reconnect(t *rapid.T) {
 	}
 	pi := gone[rapid.IntRange(0, len(gone)-1).Draw(t, "peer")]
 	old := m.w.Peers[pi]
-	p := m.w.Reconnect(old, regs.PeerEntities())
+	var p *world.Peer
+	if m.noAddr[pi] {
+		p = m.w.ReconnectOnly(old)
+		announceWithoutAddress(p, regs.PeerEntities())
+	} else {
+		p = m.w.Reconnect(old, regs.PeerEntities())
+	}
+	m.had[pi] = nil
 	if rapid.Bool().Draw(t, "answersCoreRequests") {
 		p.AnswerCoreRequests()
 		p.Cap.Drain()
@@ -701,7 +787,7 @@ func (m *machine) entityRemoved(t *rapid.T) {
 	e := regs.PeerEntities()[1]
 	e.Feats = nil
 	cmd := model.CmdType{Function: ptr(model.FunctionTypeNodeManagementDetailedDiscoveryData), Filter: []model.FilterType{*model.NewFilterTypePartial()},
-		NodeManagementDetailedDiscoveryData: p.DiscoveryData([]world.EntSpec{e}, &removed)}
+		NodeManagementDetailedDiscoveryData: m.discovery(victim, p.DiscoveryData([]world.EntSpec{e}, &removed))}
 	// field devices leave the device part of the entity address out (it is named in deviceInformation)
 	omitDevice := rapid.Bool().Draw(t, "entityAddressWithoutDevice")
 	if omitDevice {
@@ -808,7 +894,7 @@ func (m *machine) entityNotification(t *rapid.T, victim int, entries []entEntry,
 	}
 	m.w.Events.Drain()
 	omitDevice := rapid.Bool().Draw(t, "addressesWithoutDevice")
-	cmd := model.CmdType{NodeManagementDetailedDiscoveryData: discoveryData(p, entries, omitDevice)}
+	cmd := model.CmdType{NodeManagementDetailedDiscoveryData: m.discovery(victim, discoveryData(p, entries, omitDevice))}
 	if partial {
 		cmd.Function = ptr(model.FunctionTypeNodeManagementDetailedDiscoveryData)
 		cmd.Filter = []model.FilterType{*model.NewFilterTypePartial()}
@@ -961,7 +1047,7 @@ func (m *machine) entityReannounced(t *rapid.T) {
 		world.Label("entity-reannounced/without-one-feature")
 	}
 	cmd := model.CmdType{Function: ptr(model.FunctionTypeNodeManagementDetailedDiscoveryData), Filter: []model.FilterType{*model.NewFilterTypePartial()},
-		NodeManagementDetailedDiscoveryData: p.DiscoveryData([]world.EntSpec{ent}, &added)}
+		NodeManagementDetailedDiscoveryData: m.discovery(pi, p.DiscoveryData([]world.EntSpec{ent}, &added))}
 	p.Send(p.Msg(model.CmdClassifierTypeNotify, p.NM(), world.LocalNM(), false, nil, cmd))
 	m.w.Sync()
 	p.Cap.Drain()
@@ -993,8 +1079,20 @@ func TestTeardown(t *testing.T) {
 		// are node management subscriptions / bindings, under an address without device part)
 		silent := rapid.SampledFrom([]int{0, 0, 0, 1, 2}).Draw(t, "unannouncedPeers")
 		world.Label(fmt.Sprintf("unannouncedPeers/%d", silent))
-		m := &machine{w: regs.NewWithUnannounced(3, silent), pending: map[int]int{}, tree: map[int]map[string]bool{}, localGone: map[string]bool{}}
+		// ... and sometimes one peer announces itself without telling its device address (the element is
+		// optional): the stack knows it by SKI only
+		addressless := 0
+		if silent < 2 {
+			addressless = rapid.SampledFrom([]int{0, 0, 1}).Draw(t, "peersWithoutDeviceAddress")
+		}
+		world.Label(fmt.Sprintf("peersWithoutDeviceAddress/%d", addressless))
+		m := &machine{w: regs.NewWithUnannounced(3, silent+addressless), pending: map[int]int{}, tree: map[int]map[string]bool{}, localGone: map[string]bool{},
+			had: map[int]map[string]bool{}, noAddr: map[int]bool{}}
 		defer m.w.Teardown()
+		for i := 3 - silent - addressless; i < 3-silent; i++ {
+			announceWithoutAddress(m.w.Peers[i], regs.PeerEntities())
+			m.noAddr[i] = true
+		}
 		for i, p := range m.w.Peers {
 			if p.Ents != nil {
 				m.tree[i] = fullTree()
